@@ -39,6 +39,11 @@ class CompilationUnit(EvaluationContext):
         # key.
         self.data = defaultdict(list)
 
+        # Maps each label to the key (in "data") of the first group of
+        # DATA values at or after that label. Labels with no DATA
+        # statement after them are not in this dictionary.
+        self.data_label_parts = {}
+
     def eval_lvalue(self, lvalue):
         if lvalue.array_indices or lvalue.dotted_vars:
             raise InternalError(
@@ -218,6 +223,7 @@ class Pass1(CompilePass):
     def __init__(self, compilation):
         super().__init__(compilation)
         self._last_label = None
+        self._labels_since_last_data = []
         self._cur_blocks = []
 
     def process_label_pre(self, node):
@@ -229,6 +235,7 @@ class Pass1(CompilePass):
         node.parent_routine.labels.add(node.name)
         self.compilation.all_labels.add(node.name)
         self._last_label = node.canonical_name
+        self._labels_since_last_data.append(node.canonical_name)
 
     def process_lineno_pre(self, node):
         if node.canonical_name in self.compilation.all_labels:
@@ -239,6 +246,7 @@ class Pass1(CompilePass):
         node.parent_routine.labels.add(node.canonical_name)
         self.compilation.all_labels.add(node.canonical_name)
         self._last_label = node.canonical_name
+        self._labels_since_last_data.append(node.canonical_name)
 
     def process_def_type_pre(self, node):
         for letter in node.letters:
@@ -406,6 +414,11 @@ class Pass1(CompilePass):
                 EC.ILLEGAL_IN_SUB,
                 'DATA is illegal in SUB/FUNCTION',
                 node=node)
+        # this DATA statement is the first one at or after every label
+        # seen since the previous DATA statement
+        for label in self._labels_since_last_data:
+            self.compilation.data_label_parts[label] = self._last_label
+        self._labels_since_last_data = []
         self.compilation.data[self._last_label].extend(node.items)
 
 
